@@ -65,6 +65,29 @@ class SA(np.ndarray):
 
     conj = conjugate
 
+    def _inplace(self, o, op):
+        if isinstance(o, (SR, SC, SI)):
+            r = getattr(o, op)(np.asarray(self))
+            np.ndarray.__setitem__(self, Ellipsis, r)
+            return self
+        return NotImplemented
+
+    def __imul__(self, o):
+        r = self._inplace(o, "__rmul__")
+        return np.ndarray.__imul__(self, o) if r is NotImplemented else r
+
+    def __iadd__(self, o):
+        r = self._inplace(o, "__radd__")
+        return np.ndarray.__iadd__(self, o) if r is NotImplemented else r
+
+    def __isub__(self, o):
+        r = self._inplace(o, "__rsub__")
+        return np.ndarray.__isub__(self, o) if r is NotImplemented else r
+
+    def __itruediv__(self, o):
+        r = self._inplace(o, "__rtruediv__")
+        return np.ndarray.__itruediv__(self, o) if r is NotImplemented else r
+
     def __reduce__(self):
         raise TypeError("SA arrays are not picklable")
 
